@@ -16,7 +16,7 @@ from harness.tables import walk
 
 PID = "C05"
 G = {}
-PLANT = ["corrupt-content-class", "add-unknown-child", "add-misplaced-child", "rename-unknown", "corrupt-attr", "add-attr", "drop",
+PLANT = ["corrupt-content-class", "corrupt-content-reject-class", "corrupt-content-reject-class", "add-unknown-child", "add-misplaced-child", "rename-unknown", "corrupt-attr", "add-attr", "drop",
          "duplicate", "graft-under-metadata", "set-content-on-empty", "clear-content"]
 
 
@@ -79,7 +79,8 @@ def w_random(seeds):
             root = valtrace.fixture_root()
             desc = {"base": "fixture"}
         else:
-            el = rnd.choice(["eml", "eml", "dataset", "dataTable", "methods", "project", "coverage", "creator", "abstract", "attributeList"])
+            el = rnd.choice(["eml", "eml", "dataset", "dataTable", "methods", "project", "coverage", "coverage", "geographicCoverage", "boundingCoordinates",
+                             "creator", "abstract", "attributeList", "attribute", "physical"])
             g = tables.TreeGen(t, seed, max_depth=5, breadth=rnd.randint(2, 8))
             root, errs = g.gen_valid(el)
             desc = {"base": "generated", "element": el, "seed": seed}
